@@ -1183,6 +1183,61 @@ func (g *gen) overlappingVotes(vh uint64, vr uint32, cr uint32) {
 	if set.n() < 2 {
 		return
 	}
+	if g.pick(4) == 0 {
+		// third schedule: two copies of one vote for a round beyond the next one (or for the
+		// next height) are handled concurrently: both pass the mirror's look at the round store
+		// before either reaches the kernel
+		kind := kindPrevote
+		if g.pick(2) == 0 {
+			kind = kindPrecommit
+		}
+		h, r := vh, vr+2+uint32(g.pick(2))
+		if g.pick(4) == 0 {
+			h, r = vh+1, uint32(g.pick(2))
+		}
+		one := g.w.minoritySubset(g.rng, h)
+		if len(one) == 0 {
+			return
+		}
+		target := ""
+		if g.pick(2) == 0 {
+			target = g.randHash()
+		}
+		m1 := g.validVote(kind, h, r, target, one[:1])
+		m1.desc = "future-vote(held)"
+		m2 := g.validVote(kind, h, r, target, one[:1])
+		m2.desc = "future-vote-duplicate"
+		g.w.noteDelivered(voteKey{kind, h, r, target}, one[:1])
+		hold := newVoteHold()
+		done := make(chan struct{})
+		go func() {
+			defer close(done)
+			g.doSendVoteHeld(m1, false, hold)
+		}()
+		select {
+		case <-hold.arrived:
+			g.cs.count("overlap.future-vote-parked-before-add")
+			// the duplicate is parked at the same point, then both continue
+			hold2 := newVoteHold()
+			done2 := make(chan struct{})
+			go func() {
+				defer close(done2)
+				g.doSendVoteHeld(m2, false, hold2)
+			}()
+			select {
+			case <-hold2.arrived:
+				g.cs.count("overlap.future-vote-duplicate-parked-too")
+			case <-done2:
+			}
+			close(hold.release)
+			close(hold2.release)
+			<-done
+			<-done2
+		case <-done:
+			g.cs.count("overlap.first-call-returned-before-the-hook")
+		}
+		return
+	}
 	if g.pick(3) == 0 {
 		// second schedule: a vote for the next round is parked between the mirror's merge and
 		// the kernel request while the voting round commits; when it continues, its round is a
